@@ -603,6 +603,9 @@ func TestC19(t *testing.T) {
 			minEff = 1
 		}
 		switch {
+		case strings.Contains(r.Err, errRunaway.Error()):
+			bad = fmt.Sprintf("the run never stops sending: asked protocol %s method %q TTL %d..%d, the simulated wire's guard ended it after 1500 probes", c.Proto, c.Method, minEff, c.Max)
+			sig["defect"] = "runaway-loop"
 		case obs[i] == "crash":
 			bad = fmt.Sprintf("the process crashed on an accepted request (protocol %s method %q TTL %d..%d): %s", c.Proto, c.Method, minEff, c.Max, strings.SplitN(r.Stderr, "\n", 2)[0])
 			sig["defect"] = "crash"
